@@ -68,7 +68,7 @@ def facts(ctx):
         got = len(re.findall(r"(?<![\w])" + re.escape(k), body))
         if got != n:
             raise TieBroken(f"srcfacts: fn main has {got} calls of {k}..) where the model accounts for {n}")
-    # is the sidecar write guarded by an existence/force test?  (false on the pinned tree: F-CLI-SIDECAR)
+    # is the sidecar write guarded by an existence/force test?  (true since 5fdfaf69f; F-CLI-SIDECAR fixed)
     g1 = bool(re.search(r"sidecar\w*\.exists\(\)[^;{}]*!\s*args\.force|!\s*args\.force[^;{}]*sidecar\w*\.exists\(\)", body))
     g1b = bool(re.search(r"with_extension\(\"c2pa\"\)\s*\.exists\(\)[^;{}]*!\s*args\.force", body))
     st = common.strip_tests(common.src("sdk/src/store.rs"))
@@ -457,9 +457,11 @@ def pick_cases(ctx):
     if ctx.quick():
         # the complete cube over the decision-relevant predicates with remote/early/ingredient at their defaults,
         # plus a seeded sample of the rest
-        core = [r for r in full if not r["remote"] and not r["early"] and not r["ingredient"]]
-        rest = [r for r in full if r["remote"] or r["early"] or r["ingredient"]]
-        pick = core + ctx.rng.sample(rest, min(len(rest), 150))
+        def is_core(r):
+            return not r["remote"] and not r["early"] and not r["ingredient"] and r["fragment"] != "FNoGlob"
+        core = [r for r in full if is_core(r)]
+        rest = [r for r in full if not is_core(r)]
+        pick = core + ctx.rng.sample(rest, min(len(rest), 120))
     else:
         pick = full
     seen = set()
@@ -492,7 +494,7 @@ def run(ctx):
     ctx.coverage.update({
         "evaluations": len(cases), "distinct_nontrivial": distinct,
         "rule": "realisable records of the predicate cube (complete in the thorough tier; in the quick tier complete for "
-                "remote=early=ingredient=false plus a seeded sample of 150 others), corpus first; non-trivial = some target "
+                "remote=early=ingredient=false, fragment<>FNoGlob, plus a seeded sample of 120 others), corpus first; non-trivial = some target "
                 "(output or sidecar) exists before the run; distinct by record",
         "domain_size": n[1], "realisable": n[0],
         "distribution": stats,
